@@ -1,6 +1,6 @@
 """Per-property configuration of the checks."""
 import glob, os
-import gens_core
+import gens_core, gens_codec
 
 V = '/verif'
 
@@ -50,12 +50,17 @@ PROPS = {
                  'FetchFromArchive clamping, interval arithmetic, findBestArchive'),
     'C05': entry(gens_core.gen_c05, 200, 3000, RULE_LIB,
                  'Create/Sync/Close/Open at the slot-view level; filebuffer page cache in Model/FileBuf.v'),
+    'C14': entry(gens_codec.gen_c14, 500, 8000,
+                 'objects of every codec kind (boundary and random field values, NaN payloads, infinities, signed zero) generated from one '
+                 'seeded PRNG state; every proper prefix (all of them up to 80 bytes, boundary + random ones beyond), arbitrary trailers and '
+                 'a second message behind the first; a case is distinct by the hash of its operation list and non-trivial when a decode succeeds',
+                 'AppendTo/TakeFrom of Timestamp, Duration, Value, Point, Points, TimeSeries, ArchiveInfo, Header'),
 }
 
 
 def extra_nontrivial(res):
     for l in res['impl']:
-        if ' series ' in l:
+        if ' series ' in l or l.startswith('dec ok'):
             return True
     return False
 
